@@ -254,17 +254,19 @@ Definition qc_sqrt_exact (x : Qc) : bool :=
   ((0 <=? n) && (Z.sqrt n * Z.sqrt n =? n) && (Z.sqrt d * Z.sqrt d =? d))%Z.
 
 Definition qcq (a : Z) (b : positive) : Qc := Q2Qc (Qmake a b).
-Definition qq (q : quat QcRing) : Q * Q * Q * Q := (this (q0 q), this (q1 q), this (q2 q), this (q3 q)).
-Definition qv (v : vec3 QcRing) : Q * Q * Q := (this (v0 v), this (v1 v), this (v2 v)).
-Definition qm (m : mat3 QcRing) : list Q :=
-  [this (v0 (row0 _ m)); this (v1 (row0 _ m)); this (v2 (row0 _ m));
-   this (v0 (row1 _ m)); this (v1 (row1 _ m)); this (v2 (row1 _ m));
-   this (v0 (row2 _ m)); this (v1 (row2 _ m)); this (v2 (row2 _ m))].
+(* rationals are printed as (numerator, denominator) pairs of integers *)
+Definition qz (x : Qc) : Z * Z := (Qnum (this x), Zpos (Qden (this x))).
+Definition qq (q : quat QcRing) := [qz (q0 q); qz (q1 q); qz (q2 q); qz (q3 q)].
+Definition qv (v : vec3 QcRing) := [qz (v0 v); qz (v1 v); qz (v2 v)].
+Definition qm (m : mat3 QcRing) : list (Z * Z) :=
+  [qz (v0 (row0 _ m)); qz (v1 (row0 _ m)); qz (v2 (row0 _ m));
+   qz (v0 (row1 _ m)); qz (v1 (row1 _ m)); qz (v2 (row1 _ m));
+   qz (v0 (row2 _ m)); qz (v1 (row2 _ m)); qz (v2 (row2 _ m))].
 (* the matrix of the rotation represented by a (not necessarily unit) quaternion: (+/-) M(q) / |q|^2 *)
 Definition nmatQ (r : rot QcRing) : mat3 QcRing := mscal QcRing (Qcinv (qnorm2 QcRing (fst r))) (rmat QcRing r).
 (* observation of a batch state: per element the matrix of the STORED quaternion (as_matrix does not normalise),
    the flag, and whether every square root taken so far was exact (else the rational model does not apply) *)
-Definition obs_state (st : list (rot QcRing)) : list (list Q * bool) := map (fun r => (qm (rmat QcRing r), snd r)) st.
+Definition obs_state (st : list (rot QcRing)) : list (list (Z * Z) * bool) := map (fun r => (qm (rmat QcRing r), snd r)) st.
 Definition qc_elem := elem_apply QcRing Qcinv qc_sqrt qc_ltb.
 Definition qc_trace := rot_trace QcRing Qcinv qc_sqrt qc_ltb.
 (* exactness of the square roots needed by one per-element operation on one element *)
